@@ -17,6 +17,7 @@ func (b *Base) SetEnt(e *Entry) { b.E = e }
 func (b *Base) IsI0()           {}
 func (b *Base) IsI1()           {}
 func (b *Base) IsI2()           {}
+func (b *Base) IsI3()           {}
 
 // Svc is implemented by every harness service type.
 type Svc interface {
@@ -36,8 +37,12 @@ type I2 interface {
 	Svc
 	IsI2()
 }
+type I3 interface {
+	Svc
+	IsI3()
+}
 
-const NumIface = 3
+const NumIface = 4
 
 // Type ids: 0..NumConcrete-1 concrete pointer types (*D0..,*N0..), then the
 // interfaces I0..I2.
@@ -45,6 +50,7 @@ const (
 	TI0 = NumConcrete + iota
 	TI1
 	TI2
+	TI3
 	NumTypes
 )
 
@@ -52,6 +58,7 @@ var ifaceTypes = []reflect.Type{
 	reflect.TypeOf((*I0)(nil)).Elem(),
 	reflect.TypeOf((*I1)(nil)).Elem(),
 	reflect.TypeOf((*I2)(nil)).Elem(),
+	reflect.TypeOf((*I3)(nil)).Elem(),
 }
 
 var (
@@ -94,6 +101,8 @@ func AsOption(t int) godi.AddOption {
 		return godi.As[I1]()
 	case TI2:
 		return godi.As[I2]()
+	case TI3:
+		return godi.As[I3]()
 	}
 	panic("AsOption: not an interface type id")
 }
